@@ -134,7 +134,8 @@ pub fn check_sums_f<F: Fl>(c: &SumCase) -> CheckResult {
         let (s, a) = abs_sum(&data, Some(&w_nonneg));
         // |r W - S| |W| <= gamma (A |W| + |S| sum|w|)  (sum|w| = W here)
         let lhs = Dy::from_f64(r).mul(&wsum).sub(&s).abs().mul(&wsum);
-        let rhs = a.mul(&wsum).add(&s.abs().mul(&wsum)).mul(&gdy(g)).add(&tiny.mul(&wsum).mul(&wsum));
+        // (the absolute term covers underflow in the products: tiny/W on the mean when W < 1)
+        let rhs = a.mul(&wsum).add(&s.abs().mul(&wsum)).mul(&gdy(g)).add(&tiny.mul(&wsum).mul(&wsum)).add(&tiny.mul(&wsum));
         ensure!(r.is_finite() && lhs.le(&rhs), "tolerance", "weighted_mean = {:e}, exact {:e} (data {:?}, weights {:?})", r, ratio(&s, &wsum), data, w_nonneg);
     }
     // per-axis forms
@@ -173,7 +174,7 @@ pub fn check_sums_f<F: Fl>(c: &SumCase) -> CheckResult {
             let lane: Vec<F> = idx.iter().map(|&i| data[i]).collect();
             let (s, a) = abs_sum(&lane, Some(&wa));
             let lhs = Dy::from_f64(got.to64()).mul(&wasum).sub(&s).abs().mul(&wasum);
-            let rhs = a.mul(&wasum).add(&s.abs().mul(&wasum)).mul(&gdy(ga)).add(&tiny.mul(&wasum).mul(&wasum));
+            let rhs = a.mul(&wasum).add(&s.abs().mul(&wasum)).mul(&gdy(ga)).add(&tiny.mul(&wasum).mul(&wasum)).add(&tiny.mul(&wasum));
             ensure!(got.is_finite() && lhs.le(&rhs), "tolerance", "weighted_mean_axis lane {} = {:e}, exact {:e} (lane {:?}, weights {:?})", l, got, ratio(&s, &wasum), lane, wa);
         }
     }
@@ -248,9 +249,35 @@ pub fn check_sums_f<F: Fl>(c: &SumCase) -> CheckResult {
             }
         }
     }
+    // geometric mean with some subnormal elements (finite, positive: ln is exact to an ulp
+    // there); the others keep their magnitude, so the mean itself stays a normal number
+    let mut subnormal_checked = false;
+    if hg && !F::IS32 {
+        let scaled: Vec<F> = pos.iter().map(|x| if (x.to64().to_bits() >> 9) % 4 == 0 { F::from64(x.to64() * pow2(-1030)) } else { *x }).collect();
+        let logs: Vec<f64> = scaled.iter().map(|x| x.to64().ln()).collect();
+        let mean_log = comp_sum(logs.iter().cloned()) / n as f64;
+        if scaled.iter().all(|x| *x > F::zero()) && scaled.iter().any(|x| x.to64() < f64::MIN_POSITIVE) && mean_log > -690.0 {
+            subnormal_checked = true;
+            let mean_abs_log = comp_sum(logs.iter().map(|l| l.abs())) / n as f64;
+            let rel = 2.0 * g * mean_abs_log + 16.0 * F::U;
+            let ls = Laid::new(&c.layout_d, &c.shape, &scaled);
+            let sv = ls.view();
+            match catch(|| sv.geometric_mean()) {
+                Ok(Ok(r)) => {
+                    let r = r.to64();
+                    ensure!(r.is_finite() && r > 0.0 && (r.ln() - mean_log).abs() <= rel + 4.0 * F::U * mean_log.abs(), "tolerance", "geometric_mean of data with subnormal elements = {:e}, but exp(mean ln x) has ln = {:e} (relative budget {:e}); data {:?}", r, mean_log, rel, scaled);
+                }
+                Ok(Err(er)) => fail!("error-kind", "geometric_mean returned {:?}", er),
+                Err(p) => fail!("panic", "geometric_mean panicked: {}", p),
+            }
+        }
+    }
     let nonuniform = w_nonneg.iter().any(|w| *w != w_nonneg[0]);
     let mixed = data.iter().any(|x| *x < F::zero()) && data.iter().any(|x| *x > F::zero());
     Ok(Info::new(n >= 3 && (nonuniform || mixed))
+        .class_if(subnormal_checked, "geometric:subnormal-elements")
+        .class_if(n > 4096, "n>4096")
+        .class_if(n > 8192, "n>8192")
         .class(if F::IS32 { "type:f32" } else { "type:f64" })
         .class(c.layout_d.class())
         .class_if(c.layout_d != c.layout_w, "data/weights:different-layouts")
@@ -395,7 +422,12 @@ pub fn var_reference<F: Fl>(xs: &[F], ws: &[F], ddof: F) -> Option<VarRef> {
     let mabs = used.iter().fold(0.0f64, |a, &x| a.max(x.abs()));
     let wd = ratio(&w, &d);
     let g = gamma::<F>(n);
-    let tol = g * wd * r * (r + mabs) * 1.0001 + var.abs() * g * wd + F::TINY;
+    // underflow: with weights near the bottom of the exponent range each product w*(x-mean)*(x-mean')
+    // carries an absolute error of up to one smallest subnormal (eta) times (1 + r); divided by D
+    let eta = if F::IS32 { 2f64.powi(-149) } else { f64::from_bits(1) };
+    let df = d.to_f64();
+    let uf = if df > 0.0 { 4.0 * n as f64 * eta * (1.0 + r) * (1.0 + r) * (1.0 + w.to_f64()) / df } else { f64::INFINITY };
+    let tol = g * wd * r * (r + mabs) * 1.0001 + var.abs() * g * wd + F::TINY + uf;
     Some(VarRef { var, tol, resolving: tol <= var.abs() / 1024.0 })
 }
 
@@ -591,6 +623,9 @@ pub fn check_var_f<F: Fl>(c: &SumCase) -> CheckResult {
         .class_if(leading_zero_weight, "weights:leading-zero")
         .class_if(w.iter().any(|x| *x == F::zero()), "weights:some-zero")
         .class_if(kappa_big, "large-mean/small-spread(kappa>=2^10)")
+        .class_if(n > 4096, "n>4096")
+        .class_if(n > 8192, "n>8192")
+        .class_if(w.iter().map(|x| x.to64()).sum::<f64>() < if F::IS32 { 1.2e-38 } else { f64::MIN_POSITIVE }, "weights:subnormal-total")
         .class_if(shape_checked, "skewness/kurtosis-checked")
         .class_if(c.layout_d != c.layout_w, "data/weights:different-layouts"))
 }
@@ -653,6 +688,8 @@ pub fn float_weights(f32_: bool, n: usize) -> BoxedStrategy<Vec<i128>> {
         1 => Just(vec![enc(1.0); n]),
         // uniformly tiny weights (the result must not depend on the scale of the weights)
         1 => (proptest::collection::vec(1u32..64, n), 40i32..90).prop_map(move |(v, e)| v.into_iter().map(|k| enc(k as f64 * 2f64.powi(-e))).collect::<Vec<_>>()),
+        // weights at the bottom of the exponent range (subnormal running sums)
+        1 => (proptest::collection::vec(1u32..64, n), if f32_ { 127i32..135 } else { 1023i32..1045 }).prop_map(move |(v, e)| v.into_iter().map(|k| enc(k as f64 * pow2(-e as i64))).collect::<Vec<_>>()),
         // explicit classes for zero weights at the first / middle / last position
         2 => (proptest::collection::vec(1u32..40, n), 0usize..4).prop_map(move |(v, pos)| {
             let n = v.len();
@@ -680,6 +717,20 @@ pub fn float_weights(f32_: bool, n: usize) -> BoxedStrategy<Vec<i128>> {
 }
 
 fn int_data(ty: NTy, n: usize, w: bool) -> BoxedStrategy<Vec<i128>> {
+    if n > 256 {
+        // long inputs (n up to 2^15): smaller magnitudes so that n * max|x| * max|w| still fits
+        let (lo, hi): (i128, i128) = match (ty, w) {
+            (NTy::I32, false) => (-50, 50),
+            (NTy::I32, true) => (0, 20),
+            (NTy::I64, false) => (-(1i128 << 30), 1i128 << 30),
+            (NTy::I64, true) => (0, 1i128 << 12),
+            (NTy::U32, false) => (0, 100),
+            (NTy::U32, true) => (0, 20),
+            (_, false) => (0, 1i128 << 30),
+            (_, true) => (0, 1i128 << 12),
+        };
+        return prop_oneof![3 => proptest::collection::vec(lo..=hi, n), 1 => proptest::collection::vec(lo.max(-3)..=hi.min(3), n)].boxed();
+    }
     // magnitudes chosen so that n * max|x| * max|w| fits the type
     let (lo, hi): (i128, i128) = match (ty, w) {
         (NTy::I32, false) => (-2000, 2000),
@@ -742,6 +793,13 @@ pub fn sumcase_strategy(float_only: bool, max_n: usize) -> impl Strategy<Value =
                 }
                 w_axis[0] = zero;
             }
+            // weights at the bottom of the exponent range: only ddof = 0 leaves a positive denominator
+            let tiny_total = |w: &Vec<i128>| match ty {
+                NTy::F64 => w.iter().map(|&b| abs_f64(b)).sum::<f64>() < 1e-300,
+                NTy::F32 => w.iter().map(|&b| abs_f32(b) as f64).sum::<f64>() < 1e-37,
+                _ => false,
+            };
+            let ddof = if tiny_total(&weights) || tiny_total(&w_axis) { 0.0 } else { ddof };
             SumCase {
             ty,
             shape,
@@ -759,9 +817,62 @@ pub fn sumcase_strategy(float_only: bool, max_n: usize) -> impl Strategy<Value =
         }})
 }
 
+/// Long inputs: thousands of elements (lengths around block sizes and powers of two), as one
+/// long 1-D array or a long axis with a few lanes; the regimes a blocked / pairwise / chunked
+/// summation only enters beyond a few thousand elements.
+pub fn sumcase_long_strategy(float_only: bool, max_n: usize) -> impl Strategy<Value = SumCase> {
+    let tys = if float_only { vec![NTy::F64, NTy::F64, NTy::F32] } else { vec![NTy::F64, NTy::F64, NTy::F64, NTy::F32, NTy::I32, NTy::I64, NTy::U32, NTy::Usize] };
+    (proptest::sample::select(tys), crate::gen::long_len(600, max_n), 1usize..=3, 0usize..4)
+        .prop_flat_map(move |(ty, lane, others, place)| {
+            let (shape, axis) = match place {
+                0 | 1 => (vec![lane], 0),
+                2 => (vec![(lane / others).max(2), others], 0),
+                _ => (vec![others, (lane / others).max(2)], 1),
+            };
+            let nd = shape.len();
+            (Just(ty), Just(shape), Just(axis), layout_strategy(nd), layout_strategy(nd))
+        })
+        .prop_flat_map(|(ty, shape, axis, layout_d, layout_w)| {
+            let total: usize = shape.iter().product();
+            let na = shape[axis];
+            let (d, w, wa) = match ty {
+                NTy::F64 => (float_data(false, total), float_weights(false, total), float_weights(false, na)),
+                NTy::F32 => (float_data(true, total), float_weights(true, total), float_weights(true, na)),
+                _ => (int_data(ty, total.max(257), false).prop_map(move |mut v| { v.truncate(total); v }).boxed(), int_data(ty, total.max(257), true).prop_map(move |mut v| { v.truncate(total); v }).boxed(), int_data(ty, na.max(257), true).prop_map(move |mut v| { v.truncate(na); v }).boxed()),
+            };
+            (
+                Just((ty, shape, axis, layout_d, layout_w)),
+                d,
+                w,
+                wa,
+                proptest::collection::vec(any::<bool>(), 0..5),
+                1usize..3,
+                any::<bool>(),
+                prop_oneof![Just(0.0f64), Just(1.0f64), Just(0.5f64)],
+                0u16..=6,
+            )
+        })
+        .prop_map(|((ty, shape, axis, layout_d, layout_w), data, weights, w_axis, neg_mask, w_axis_step, w_axis_rev, ddof, order)| SumCase {
+            ty,
+            shape,
+            layout_d,
+            layout_w,
+            axis,
+            data,
+            weights,
+            neg_mask,
+            w_axis,
+            w_axis_step,
+            w_axis_rev,
+            ddof: ddof.to_bits(),
+            order,
+        })
+}
+
 pub fn run_c06(ctx: &Ctx) {
     let t = ctx.tier();
     ctx.run_proptest("sums", t.pick(24_000, 600_000), sumcase_strategy(false, t.pick(256, 1024)), &check_sums);
+    ctx.run_proptest("sums-long", t.pick(400, 12_000), sumcase_long_strategy(false, t.pick(20_000, 33_000)), &check_sums);
 }
 
 pub fn run_c07(ctx: &Ctx) {
@@ -778,13 +889,14 @@ pub fn run_c07(ctx: &Ctx) {
         }),
         &check_var,
     );
+    ctx.run_proptest("var-long", t.pick(300, 9_000), sumcase_long_strategy(true, t.pick(13_000, 25_000)), &check_var);
 }
 
 pub fn replayers_c06() -> Vec<(&'static str, ReplayFn)> {
-    vec![("sums", |v| replay_with::<SumCase>(v, &check_sums))]
+    vec![("sums", |v| replay_with::<SumCase>(v, &check_sums)), ("sums-long", |v| replay_with::<SumCase>(v, &check_sums))]
 }
 pub fn replayers_c07() -> Vec<(&'static str, ReplayFn)> {
-    vec![("var", |v| replay_with::<SumCase>(v, &check_var))]
+    vec![("var", |v| replay_with::<SumCase>(v, &check_var)), ("var-long", |v| replay_with::<SumCase>(v, &check_var))]
 }
 
 #[allow(dead_code)]
